@@ -121,6 +121,98 @@ def to_event_dict(spec, groups=None):
     return out
 
 
+def apply_mutation(e, op, groups=None):
+    """Perform the edit `op` (see model_events.apply_mutation) on the real
+    event object with the dict method the op names; returns the object."""
+    m = op['m']
+    st = to_event_dict(op.get('set') or {}, groups)
+    dl = op.get('del') or []
+    if m in ('clear', 'clear-update'):
+        e.clear()
+    if m == 'popitem':
+        for _ in range(op.get('n', 1)):
+            if e:
+                e.popitem()
+    if m == 'setdefault' and op.get('pop_assigned'):
+        dl = list(dl) + [k for k in st if k not in dl]
+    for k in dl:
+        if m in ('setitem', 'delitem'):
+            if k in e:
+                del e[k]
+        elif m == 'pop':
+            if k in e:
+                e.pop(k)
+        else:
+            e.pop(k, None)
+    if not st:
+        return e
+    if m == 'setitem':
+        for k, v in st.items():
+            e[k] = v
+    elif m == 'update-kw':
+        e.update(**st)
+    elif m == 'update-pairs':
+        e.update(list(st.items()))
+    elif m == 'ior':
+        e |= st
+    elif m == 'setdefault':
+        for k, v in st.items():
+            e.setdefault(k, v)
+    else:       # update-dict, update/pop, clear-update, popitem + update ...
+        e.update(st)
+    return e
+
+
+def derive(e, how, st, groups=None):
+    """A new event object made from `e` (and the keys `st`)."""
+    import copy
+    from sc3.seq.event import event
+    kw = to_event_dict(st or {}, groups)
+    if how == 'copy':
+        new = e.copy()
+    elif how == 'copy.copy':
+        new = copy.copy(e)
+    elif how == 'event(e)':
+        new = event(e)
+    elif how == 'event(**e)':
+        new = event(**e)
+    elif how == 'type(e)(e)':
+        new = type(e)(e)
+    elif how == 'event(e,**kw)':
+        return event(e, **kw)
+    elif how == 'event(e|d)':
+        return event(e | kw)
+    else:
+        raise ValueError(how)
+    if kw:
+        new.update(kw)
+    return new
+
+
+def wanted_lookups(ev, res):
+    """[(key, expected)] of the look-ups that the statement decides for the
+    explicit key set `ev` (see the comments in vf/props/C14.py run_chain)."""
+    wanted = [('delta', res.delta), ('sustain', res.sustain)]
+    if res.rest:
+        return wanted
+    if not ('db' in ev and 'velocity' in ev and 'amp' not in ev):
+        # (db together with velocity without amp: no documented precedence)
+        wanted.append(('amp', res.amp))
+    # `note` is compared only where its unit is unambiguous (12-ET);
+    # reverse conversions (midinote/note from freq) are not in the statement
+    plain = (ev.get('scale') or {}).get('tuning') is None
+    if res.pitch_source != 'freq':
+        if 'midinote' not in ev and plain:
+            wanted.append(('note', res.note))
+        wanted.append(('midinote', res.midinote))
+    if me.num(ev.get('harmonic', 1)) == 1:
+        wanted.append(('freq', res.freq))
+    return wanted
+
+
+PEEK_KEYS = ('freq', 'midinote', 'amp', 'sustain', 'delta')
+
+
 def to_valpattern(vs):
     from sc3.seq.patterns.listpatterns import Pseq, Pser
     from sc3.seq.patterns.valuepatterns import Pseries
@@ -246,11 +338,24 @@ def run_play_program(prog, groups):
                 objs[k] = event(to_event_dict(step['event'], groups))
             else:
                 if step['op'] == 'copy':
-                    objs[k] = objs[step['src']].copy()
+                    objs[k] = derive(objs[step['src']],
+                                     step.get('copy_how', 'copy'), None)
                 e = objs[k]
-                for key in step['del']:
-                    e.pop(key, None)
-                e.update(to_event_dict(step['set'], groups))
+                if step.get('peek'):
+                    # look-ups before the edit (values not compared here: the
+                    # previous play was)
+                    for key in PEEK_KEYS:
+                        e(key)
+                mut = step.get('mut', 'update/pop')
+                if mut == 'clear-update':
+                    apply_mutation(e, {'m': mut, 'set': step['event']}, groups)
+                else:
+                    apply_mutation(e, {'m': mut, 'set': step['set'],
+                                       'del': step['del'],
+                                       'pop_assigned': True}, groups)
+                if step.get('peek_after'):
+                    cap.extra.setdefault('peeks', []).append(
+                        (len(times) - 1, {key: e(key) for key in PEEK_KEYS}))
             objs[k].play()
             return
         d = to_event_dict(step['event'], groups)
@@ -305,6 +410,9 @@ def run_timeline_case(case):
     s.latency = case['latency']
     pat = to_pattern(case['pattern'], case.get('shared'))
     proto = event({'c14proto': 1}) if case['proto'] == 'event' else None
+    if case['proto'] == 'event-rest':
+        from sc3.seq.event import Rest
+        proto = event({'c14proto': 1, 'c14quiet': Rest(0.5)})
     if case.get('plays'):
         try:
             _run_plays(case, pat, proto)
@@ -379,6 +487,9 @@ class Expect:
         self.sets = []       # dict(tag, time, mono, ev, res)
         self.releases = []   # dict(mono, time, exact)
         self.rests = 0
+        self.rest_classes = {}      # class of key holding a Rest -> rests
+        self.odd_rests = []         # times of rests by a Rest in another key
+        self.odd_rest_tags = set()
         self.rest_tags = set()
         self.group_id = None
         self.total = None    # expected elapsed time (None: not asserted)
@@ -453,8 +564,19 @@ def expect_timeline(case, start, info, groups):
         ex.flags |= tl.flags
         first = len(ex.notes)
         for onset, e in tl.items:
-            if e.rest:
+            if e.rest or case.get('proto') == 'event-rest':
                 ex.rests += 1
+                for c in me.rest_key_classes(e.keys):
+                    ex.rest_classes[c] = ex.rest_classes.get(c, 0) + 1
+                # (a Rest-valued delta is written by the model's Pdur cut only)
+                if e.kind != 'silent' and e.keys.get('type') != 'rest' \
+                        and 'dur-or-pitch-source' not in me.rest_key_classes(
+                            {k: v for k, v in e.keys.items() if k != 'delta'}):
+                    # a rest only by a Rest object outside the duration and
+                    # pitch source keys
+                    ex.odd_rests.append(st + onset)
+                    if 'tag' in e.keys:
+                        ex.odd_rest_tags.add(e.keys['tag'])
                 if 'tag' in e.keys:
                     ex.rest_tags.add(e.keys['tag'])
                 continue
@@ -700,8 +822,15 @@ def compare(ex, cap, acc, mon, offgrid=False):
                             {'t': r['t'], 'tag': tags[0],
                              'expected_times': [n['time'] for n in ex.notes
                                                 if n['tag'] == tags[0]]}))
+            elif not tags and r['addr'] == '/n_set' and any(
+                    n_ == 'tag' and v in ex.rest_tags
+                    for n_, v in (_pairs(r['args'][1:]) or [])):
+                # a rest of a mono line set its values
+                bad.append(('rest-sent-traffic', {
+                    't': r['t'], 'args': r['args'],
+                    'tag': dict(_pairs(r['args'][1:]))['tag']}))
             elif tags and tags[0] in ex.rest_tags:
-                bad.append(('rest-sent-traffic', {'t': r['t'],
+                bad.append(('rest-sent-traffic', {'t': r['t'], 'tag': tags[0],
                                                   'args': r['args']}))
             else:
                 bad.append((f"unexpected-traffic{r['addr']}",
